@@ -2,7 +2,7 @@
    queries are the witnesses of known_findings.d/C16.json and are run on the real Database by
    every check). *)
 From Coq Require Import ZArith List Bool.
-From TV Require Import Model.SqlSpecAgg Model.AggImpl Model.AggClass.
+From TV Require Import Model.SqlSpecAgg Model.AggImpl Model.AggClass Model.AggJoin.
 Import ListNotations.
 Open Scope Z_scope.
 
@@ -61,3 +61,20 @@ Definition q_hav := mkQ None [ECol 1] [mkAgg FCountStar (ECol 0)] [0%nat] (Some 
 (* HAVING COUNT( * ) > 1 without COUNT( * ) in the select list keeps no group *)
 Lemma having_agg_refuted_l : q_class q_hav t_hav = 7 /\ wrong_rows q_hav t_hav /\ model_query q_hav t_hav = MRows [].
 Proof. split; [reflexivity|split; [|reflexivity]]. exists [], [[VInt 1]]. repeat split; vm_compute; reflexivity. Qed.
+
+(* ------------------------------------------------------------------ the hand-written path for aggregates over a join *)
+Definition jl : table := [[VInt 1; VInt 1]; [VInt 2; VInt 1]].
+Definition jr : table := [[VInt 1; VInt 1; VInt 10]].
+Definition q_join := mkQ None [ECol 1] [mkAgg FCountStar (ECol 0)] [0%nat; 1%nat] None.
+(* SELECT t.c1, COUNT( * ) FROM t JOIN u ON t.c1 = u.c1 GROUP BY t.c1: one group (1, 2) is demanded;
+   the hand-written path groups the PROJECTED rows by their second entry (t.id, which stands in for
+   COUNT( * )) and returns (1, 1), (2, 1) *)
+Lemma join_agg_refuted_l :
+  spec_join_query jl jr 1 1 q_join = SRows [[VInt 1; VInt 2]] /\
+  model_join_query jl jr 1 1 q_join = MRows [[VInt 1; VInt 1]; [VInt 2; VInt 1]].
+Proof. split; vm_compute; reflexivity. Qed.
+(* ... and without any joined row it returns no row where COUNT( * ) = 0 is demanded *)
+Lemma join_agg_empty_refuted_l :
+  spec_join_query jl [] 1 1 (mkQ None [] [mkAgg FCountStar (ECol 0)] [0%nat] None) = SRows [[VInt 0]] /\
+  model_join_query jl [] 1 1 (mkQ None [] [mkAgg FCountStar (ECol 0)] [0%nat] None) = MRows [].
+Proof. split; vm_compute; reflexivity. Qed.
